@@ -22,7 +22,7 @@ EXPLANATION = (
     "those columns for every shank; (D4) the verification loop and the reconstructor scatter with the same (target, source) "
     "column pairs keyed on the first shank, and the reconstructor's data path has no float operation; (D5) metadata keys "
     "changed by the AP writer minus keys restored/popped by the reconstructor == {original_meta}. Byte equality of "
-    "files and the channel-subset string round trip are NOT decided."
+    "files is NOT decided; (D6) the original-channel list string: the writer emits maximal runs of consecutive channels as inclusive `first:last` joined by ',' and the parser expands `a:b` to arange(a, b + 1) in the written order, with the same separators; snsSaveChanSubset is `0:<nSavedChans - 1>`."
 )
 ASSUMPTIONS = [
     "numpy astype(<int>) truncates toward zero; round/rint/around round to nearest (model table)",
@@ -448,6 +448,201 @@ def d5_meta_keys(ctx):
                       key="nSavedChans")
 
 
+def _fstring_parts(js: ast.JoinedStr):
+    """(list of literal pieces, list of formatted expressions) of an f-string."""
+    lits, vals = [], []
+    for v in js.values:
+        if isinstance(v, ast.Constant):
+            lits.append(v.value)
+        elif isinstance(v, ast.FormattedValue):
+            vals.append(v.value)
+    return lits, vals
+
+
+def _cv(e):
+    ok, v = const_value(e)
+    return v if ok else None
+
+
+def d6_subset_string(ctx):
+    ctx.rule("D6", "original-channel list: writer emits inclusive runs `first:last` joined by ','; parser expands `a:b` to arange(a, b + 1), "
+                   "in order; `snsSaveChanSubset` is `0:<count - 1>` for the count stored in nSavedChans")
+    repo = ctx.repo
+    fw = repo.fn("spikeglx._get_savedChans_subset")
+    fp = repo.fn("neuropixel.NP2Reconstructor._get_chans")
+    args = [a.arg for a in fw.node.args.args]
+    if not args:
+        raise AnchorMissing("_get_savedChans_subset has no parameter")
+    P = args[0]
+    duw = DefUse(fw.node)
+    # --- writer: separators, run boundaries, inclusive end
+    joins = [c for c in find(fw.node, ast.Call) if call_name(c) == "join" and isinstance(c.func, ast.Attribute) and isinstance(c.func.value, ast.Constant)]
+    if not joins:
+        raise AnalysisError("_get_savedChans_subset: no '<sep>'.join(...) found")
+    w_list_sep = joins[-1].func.value.value
+    fstrs = find(fw.node, ast.JoinedStr)
+    ranges = [(j,) + _fstring_parts(j) for j in fstrs]
+    two = [(j, l, v) for j, l, v in ranges if len(v) == 2]
+    one = [(j, l, v) for j, l, v in ranges if len(v) == 1]
+    if not two or not one:
+        raise AnalysisError("_get_savedChans_subset: the `first:last` / single-channel f-strings were not found")
+    j2, lits2, vals2 = two[0]
+    ctx.check(len(lits2) == 1 and j2.values[1] is not None and isinstance(j2.values[1], ast.Constant), fw, j2, j2,
+              "a run is written as <first><sep><last> with nothing else", "the run f-string carries extra literal text: the parser cannot read it back", key="w-range-form")
+    w_range_sep = lits2[0] if lits2 else None
+    # group-boundary array
+    def sub_of(e):
+        return e if isinstance(e, ast.Subscript) and loc_name(e.value) == P else None
+
+    def peel(e):
+        """P[idx] + k  ->  (P[idx], k)"""
+        k = 0
+        while isinstance(e, ast.BinOp) and isinstance(e.op, (ast.Add, ast.Sub)):
+            if _cv(e.right) is not None:
+                k += _cv(e.right) if isinstance(e.op, ast.Add) else -_cv(e.right)
+                e = e.left
+            elif _cv(e.left) is not None and isinstance(e.op, ast.Add):
+                k += _cv(e.left)
+                e = e.right
+            else:
+                break
+        return sub_of(e), k
+    (a, ka), (b, kb) = peel(vals2[0]), peel(vals2[1])
+    if a is None or b is None:
+        raise AnalysisError(f"_get_savedChans_subset: run ends are not elements of `{P}`: {src(j2)}")
+    if not (isinstance(a.slice, ast.Subscript)):
+        raise AnalysisError(f"_get_savedChans_subset: first element index `{src(a.slice)}` is not a group-boundary lookup")
+    G = loc_name(a.slice.value)
+    ev = Evaluator(resolve=lambda e: repo.resolve_expr(fw, e))
+    iv = ev.ev(a.slice.slice)
+    try:
+        bv = ev.ev(b.slice)
+    except Undecided as e:
+        raise AnalysisError(f"_get_savedChans_subset: last element index not evaluable: {e}")
+    # the last element of run i is P[G[i + 1] - 1]
+    nxt = [s_ for s_ in bv.symbols()]
+    okb = False
+    if ka == 0 and kb == 0 and len(nxt) == 1 and bv.coeff(nxt[0]) == 1 and (bv - Poly.sym(nxt[0])).const_value() == -1:
+        # the symbol must be G[i + 1]
+        for sb in find(b.slice, ast.Subscript):
+            if loc_name(sb.value) == G:
+                try:
+                    okb = (ev.ev(sb.slice) - iv).const_value() == 1
+                except Undecided:
+                    okb = False
+    ctx.check(okb, fw, j2, f"last = {src(vals2[1])}", "a run is closed by its own last element (inclusive end): P[G[i+1] - 1]",
+              f"the run `{src(j2)}` does not end on the last element of the run (`{P}[{G}[i + 1] - 1]`): the channel list written to "
+              f"snsSaveChanSubset_orig names a wrong last channel, and the reconstructor scatters columns to the wrong place", key="w-inclusive-end")
+    # single-channel form writes the run's first element
+    j1, lits1, vals1 = one[0]
+    s1 = sub_of(vals1[0])
+    ok1 = s1 is not None and isinstance(s1.slice, ast.Subscript) and loc_name(s1.slice.value) == G and not lits1
+    ctx.check(ok1, fw, j1, j1, "a single trailing channel is written as itself", f"single-channel form `{src(j1)}` is not `{P}[{G}[i]]`", key="w-single")
+    # G = r_[0, where(diff(P) != 1)[0] + 1, len(P)]
+    gdef = [d for d in duw.defs if d.var == G and d.kind == "assign"]
+    if not gdef:
+        raise AnalysisError(f"_get_savedChans_subset: definition of `{G}` not found")
+    gv = gdef[0].value
+    okg = False
+    why = "not np.r_[0, <breaks> + 1, len]"
+    if isinstance(gv, ast.Subscript) and src(gv.value).endswith("r_") and isinstance(gv.slice, ast.Tuple) and len(gv.slice.elts) == 3:
+        e0, e1, e2 = gv.slice.elts
+        first_ok = _cv(e0) == 0
+        last_ok = (isinstance(e2, ast.Call) and call_name(e2) == "len" and loc_name(e2.args[0]) == P) or src(e2) in (f"{P}.size", f"{P}.shape[0]")
+        mid_ok = False
+        if isinstance(e1, ast.BinOp) and isinstance(e1.op, ast.Add) and _cv(e1.right) == 1:
+            m = e1.left
+            if isinstance(m, ast.Subscript) and _cv(m.slice) == 0 and isinstance(m.value, ast.Call) and call_name(m.value) == "where":
+                t = m.value.args[0]
+                if isinstance(t, ast.Compare) and len(t.ops) == 1 and isinstance(t.ops[0], ast.NotEq) and _cv(t.comparators[0]) == 1 \
+                        and isinstance(t.left, ast.Call) and call_name(t.left) == "diff" and loc_name(t.left.args[0]) == P:
+                    mid_ok = True
+        okg = first_ok and last_ok and mid_ok
+        why = f"first boundary 0: {first_ok}; breaks where(diff != 1)[0] + 1: {mid_ok}; closing boundary len: {last_ok}"
+    ctx.check(okg, fw, gdef[0].stmt if hasattr(gdef[0], "stmt") else fw.node, gv, "runs are maximal stretches of consecutive channel numbers covering the whole list",
+              f"run boundaries `{src(gv)}` are not [0, positions after each break of consecutiveness, len]: {why}", key="w-boundaries")
+    # loop over all runs
+    rngs = [c for c in find(fw.node, ast.Call) if call_name(c) == "range"]
+    okr = any(len(c.args) == 1 and isinstance(c.args[0], ast.BinOp) and isinstance(c.args[0].op, ast.Sub) and _cv(c.args[0].right) == 1
+              and isinstance(c.args[0].left, ast.Call) and call_name(c.args[0].left) == "len" and loc_name(c.args[0].left.args[0]) == G for c in rngs)
+    ctx.check(okr, fw, rngs[0] if rngs else fw.node, rngs[0] if rngs else "range(...)", "every run is written", f"the runs are not enumerated by range(len({G}) - 1)", key="w-all-runs")
+
+    # --- parser
+    splits = [c for c in find(fp.node, ast.Call) if call_name(c) == "split" and c.args and isinstance(c.args[0], ast.Constant)]
+    if len(splits) < 2:
+        raise AnalysisError("_get_chans: the two split calls were not found")
+    dup = DefUse(fp.node)
+    p_list_sep = p_range_sep = None
+    for c in splits:
+        recv = c.func.value
+        rv = expand_name(dup, recv, c)
+        if isinstance(rv, ast.Call) and call_name(rv) == "get" or "snsSaveChanSubset_orig" in src(rv):
+            p_list_sep = c.args[0].value
+        else:
+            p_range_sep = c.args[0].value
+    ctx.check(p_list_sep == w_list_sep, fp, splits[0], f"writer joins with {w_list_sep!r}, parser splits on {p_list_sep!r}", "list separator agrees",
+              f"writer joins runs with {w_list_sep!r} but the parser splits on {p_list_sep!r}", key="sep-list")
+    ctx.check(p_range_sep == w_range_sep, fp, splits[-1], f"writer separates run ends with {w_range_sep!r}, parser splits on {p_range_sep!r}", "range separator agrees",
+              f"writer separates the ends of a run with {w_range_sep!r} but the parser splits on {p_range_sep!r}", key="sep-range")
+    ar = [c for c in find(fp.node, ast.Call) if call_name(c) == "arange" and len(c.args) >= 2]
+    if not ar:
+        raise AnalysisError("_get_chans: arange(a, b + 1) expansion not found")
+    evp = Evaluator(resolve=lambda e: repo.resolve_expr(fp, e))
+    for c in ar:
+        lo, hi = evp.ev(c.args[0]), evp.ev(c.args[1])
+        step_ok = len(c.args) == 2 or _cv(c.args[2]) == 1
+        # lo = int(x[0]), hi = int(x[1]) + 1
+        d = None
+        syms_lo, syms_hi = lo.symbols(), hi.symbols()
+        if len(syms_hi) == 1:
+            d = (hi - Poly.sym(next(iter(syms_hi)))).const_value()
+        idx = lambda e: [_cv(s_.slice) for s_ in find(e, ast.Subscript)]
+        ctx.check(d == 1 and step_ok and 1 in idx(c.args[1]) and 0 in idx(c.args[0]) and len(syms_lo) == 1 and (lo - Poly.sym(next(iter(syms_lo)))).const_value() == 0,
+                  fp, c, c, "`a:b` expands to a, a+1, ..., b (inclusive, like the writer)",
+                  f"`{src(c)}` does not expand `a:b` to a..b inclusive (writer closes a run with its own last channel): the parsed channel list "
+                  f"{'loses the last channel of every run' if d is not None and d < 1 else 'differs from the written one'}", key="p-inclusive")
+    # accumulation keeps the order: r_[acc, new]
+    accs = [sb for sb in find(fp.node, ast.Subscript) if src(sb.value).endswith("r_") and isinstance(sb.slice, ast.Tuple) and len(sb.slice.elts) == 2]
+    for sb in accs:
+        st = [s_ for s_ in walk_function(fp.node) if isinstance(s_, ast.Assign) and s_.value is sb]
+        if st:
+            tgt = loc_name(st[0].targets[0])
+            ctx.check(loc_name(sb.slice.elts[0]) == tgt, fp, sb, sb, "runs are appended in the order they were written",
+                      f"`{src(sb)}` prepends each run: the parsed list is in reverse run order, columns are scattered to the wrong channels", key="p-order")
+
+    # --- snsSaveChanSubset = f"0:{count - 1}" wherever nSavedChans is rewritten
+    n = 0
+    for q in (CLS + "._writemetadata_ap", CLS + "._writemetadata_lf", "neuropixel.NP2Reconstructor.write_metadata"):
+        fi = repo.fn(q)
+        evq = Evaluator(resolve=lambda e: repo.resolve_expr(fi, e))
+        cnt = None
+        sub = None
+        for st in walk_function(fi.node):
+            if isinstance(st, ast.Assign) and isinstance(st.targets[0], ast.Subscript):
+                k = string_value(st.targets[0].slice)
+                if k == "nSavedChans":
+                    cnt = st.value
+                elif k == "snsSaveChanSubset":
+                    sub = st
+        if sub is None:
+            continue
+        n += 1
+        okf = False
+        msg = f"`{src(sub.value)}` is not the f-string 0:<count - 1>"
+        if isinstance(sub.value, ast.JoinedStr):
+            lits, vals = _fstring_parts(sub.value)
+            if lits == ["0" + str(w_range_sep)] and len(vals) == 1 and cnt is not None and isinstance(sub.value.values[0], ast.Constant):
+                try:
+                    dlt = (evq.ev(vals[0]) - evq.ev(cnt)).const_value()
+                except Undecided:
+                    dlt = None
+                okf = dlt == -1
+                msg = f"`{src(sub.value)}` ends at count{int(dlt):+d} instead of count - 1 (inclusive list of the nSavedChans = `{src(cnt)}` saved channels)" if dlt is not None else msg
+        ctx.check(okf, fi, sub, sub, "saved-channel subset covers exactly the nSavedChans columns written", msg, key="subset-range:" + q.rsplit(".", 1)[-1])
+    if n == 0:
+        raise AnchorMissing("no store to snsSaveChanSubset found")
+
+
 def dS_shared(ctx):
     from sa.common import rule_no_shared_mutation
     rule_no_shared_mutation(ctx, "DS", ['neuropixel.NP2Converter._ind2save', 'neuropixel.NP2Converter._split2shanks', 'neuropixel.NP2Converter._prepare_files_NP24', 'neuropixel.NP2Converter._prepare_files_NP21', 'neuropixel.NP2Reconstructor._reconstruct', 'neuropixel.NP2Reconstructor._prepare_files'],
@@ -462,3 +657,4 @@ def run(ctx):
     ctx.run(d4b_no_gather_by_destination)
     ctx.run(d4_scatter)
     ctx.run(d5_meta_keys)
+    ctx.run(d6_subset_string)
